@@ -26,8 +26,8 @@
      * derivatives (C05Aux.v, forward-mode dual numbers over the same model code, see the comment there): the
        coded weighted input derivatives of linear, polynomial, monomial, Gaussian kernels and of scaled kernels,
        and the coded parameter derivatives (polynomial offset, Gaussian gamma), equal the tangent of the weighted
-       sum of kernel values; for MonomialKernel only under `d <> 1 \/ <x,z> <> 0`
-       (C05_monomial_degree1_orthogonal_gradient_refuted shows the coded value is wrong otherwise).
+       sum of kernel values (MonomialKernel without side condition since its degree-1 repair in /repo;
+       C05_monomial_degree1_old_gradient_refuted is the regression witness for the old code).
    PARTIAL:
      * C05_psd_gaussian_partial: PSD of the Gaussian kernel is reduced to PSD of (x,z) |-> exp(2 g <x,z>) for any
        expA with exp(a+b) = exp a * exp b; the remaining step (exponential series / Bochner) is NOT proved.
@@ -197,7 +197,6 @@ Theorem C05_input_derivative_polynomial : forall n d c C X1 dX1 X2, shapes A n C
   = GR (wid A zero add mul n (g_poly A zero one add mul div isz d c) C X1 X2) dX1.
 Proof. exact (wid_poly_correct A zero one add mul sub div opp inv le OF isz isz_spec). Qed.
 Theorem C05_input_derivative_monomial : forall n d C X1 dX1 X2, shapes A n C X1 dX1 X2 ->
-  (d <> 1%nat \/ Forall (fun x => Forall (fun z => dotA x z <> zero) X2) X1) ->
   WS (k_mono D (dzero A zero) (done A zero one) (dadd A add) (dmul A add mul) d) C X1 dX1 X2
   = GR (wid A zero add mul n (g_mono A zero one add mul div isz d) C X1 X2) dX1.
 Proof. exact (wid_mono_correct A zero one add mul sub div opp inv le OF isz isz_spec). Qed.
@@ -230,12 +229,14 @@ Theorem C05_dual_numbers_sound : forall t (p q : D),
   add (re A add mul t p) (re A add mul t q) = re A add mul t (dadd A add p q) /\
   mul (re A add mul t p) (re A add mul t q) = add (re A add mul t (dmul A add mul p q)) (mul (mul t t) (mul (snd p) (snd q))).
 Proof. exact (dual_sound A zero one add mul sub div opp inv le OF). Qed.
-(* the coded MonomialKernel gradient for degree 1 at orthogonal points is 0, the true one is z *)
-Theorem C05_monomial_degree1_orthogonal_gradient_refuted :
+(* regression for the repaired MonomialKernel defect: the old coded gradient for degree 1 at orthogonal points was
+   0, the true one (and the repaired one) is z *)
+Theorem C05_monomial_degree1_old_gradient_refuted :
   let x := [one; zero] in let z := [zero; one] in let dx := [zero; one] in
   snd (k_mono D (dzero A zero) (done A zero one) (dadd A add) (dmul A add mul) 1%nat (combine x dx) (cstv A zero z)) = one /\
-  dotA (g_mono A zero one add mul div isz 1%nat x z) dx = zero.
-Proof. exact (mono1_refuted A zero one add mul sub div opp inv le OF isz isz_spec). Qed.
+  dotA (g_mono_old A zero one add mul div isz 1%nat x z) dx = zero /\
+  dotA (g_mono A zero one add mul div isz 1%nat x z) dx = one.
+Proof. exact (mono1_old_refuted A zero one add mul sub div opp inv le OF isz isz_spec). Qed.
 End Statements.
 
 Print Assumptions C05_sym_linear.
@@ -291,7 +292,7 @@ Print Assumptions C05_parameter_derivative_gaussian_gamma.
 Print Assumptions C05_weighted_sum_tangent_inputs.
 Print Assumptions C05_weighted_sum_tangent_parameter.
 Print Assumptions C05_dual_numbers_sound.
-Print Assumptions C05_monomial_degree1_orthogonal_gradient_refuted.
+Print Assumptions C05_monomial_degree1_old_gradient_refuted.
 
 (* the premises of the conditional statements are satisfiable (over the rationals) *)
 Example C05_normalized_premises_satisfiable :
